@@ -57,9 +57,11 @@ def client():
     return _CLIENT['gui'], _CLIENT['c']
 
 
-def post(path, payload):
+def post(path, payload, compact=False):
     _, c = client()
-    r = c.post(path, data=json.dumps(payload), content_type='application/json')
+    # compact = byte for byte what the browser's JSON.stringify sends
+    data = json.dumps(payload, separators=(',', ':')) if compact else json.dumps(payload)
+    r = c.post(path, data=data, content_type='application/json')
     body = None
     if r.status_code == 200:
         body = json.loads(r.data)
@@ -253,7 +255,7 @@ def request_case(case, fail):
     payload.update({'syndrome': [int(v) for v in s], 'decoder': case['decoder'],
                     'max_bp_iter': case['max_bp_iter'], 'alpha': case['alpha'],
                     'beta': case['beta'], 'channel_update': False})
-    status, body = post('/decode', payload)
+    status, body = post('/decode', payload, compact=bool(case.get('compact')))
     if status != 200:
         fail('decode_succeeds', f'HTTP {status}')
         return False
@@ -374,6 +376,33 @@ def menu_cases(max_L, max_n, max_n_edge=700, thorough=False, max_n_repr=20000):
     return cases
 
 
+def large_decode_cases(thorough, max_n):
+    """/decode at the largest entry of the size menu of every class (the
+    request whose body grows with the code: it carries the whole syndrome)."""
+    l2c = label_to_class()
+    out = []
+    for label, cls in sorted(l2c.items()):
+        # the largest menu entry of the class that is in its size family
+        # and within the tier's budget
+        size = None
+        for L in range(MENU_MAX, 0, -1):
+            for coprime in (True, False):
+                cand = sizes_for(cls, L, coprime)
+                if domain.size_ok(cls, cand) and rough_n(cls, cand) <= max_n and \
+                        not (cls == 'Color666ToricCode' and cand[0] != cand[1]):
+                    size = cand
+                    break
+            if size:
+                break
+        if size is None:
+            continue
+        out.append({'kind': 'decode', 'label': label, 'cls': cls, 'size': list(size),
+                    'deformation': None, 'noise_deformation': None, 'error_model': 'Depolarizing',
+                    'p': 0.1, 'rseed': 1, 'decoder': 'BP-OSD', 'max_bp_iter': 2, 'alpha': 0.4,
+                    'beta': 0, 'err_rate': 0.0 if not thorough else 0.001, 'compact': True})
+    return out
+
+
 @st.composite
 def request_cases(draw):
     l2c = label_to_class()
@@ -433,4 +462,5 @@ def run(ctx):
                  key=lambda c: -rough_n(c['cls'], tuple(c['size'])))
     ctx.run_cases(rep, chunk=1)
     ctx.run_cases([c for c in cases if c['kind'] != 'representation'], chunk=4)
+    ctx.run_cases(large_decode_cases(not quick, 6500 if quick else 25000), chunk=1)
     ctx.run_hypothesis('request_cases', 400 if quick else 20000)
